@@ -74,6 +74,13 @@ def build():
     # ------------------------------------------------------------------ RelationMap
     u.item('src/store.rs', 'struct', 'RelationMap', rewrites=[('R-vis', r'\b_marker:', 'pub _marker:')])
     u.spec(SPEC, 'contracts/u_map.py:SPEC')
+    u.canary('canary_u_map', '''
+/// vacuity guard: false by one token (removing the first y from [y, y] does not give the empty sequence); must FAIL
+pub proof fn canary_u_map(y: int)
+    ensures is_remove_first(seq![y, y], Seq::<int>::empty(), y),
+{
+}
+''')
     u.impl('src/store.rs', 'impl<A, B> Default for RelationMap<A, B>', [
         Fn('default', props=P, ret='r', ensures=[('empty', 'r.data@.len() == 0')]),
     ])
